@@ -15,14 +15,70 @@ import (
 type State struct {
 	reach Term
 	vars  map[string]Term
+	epoch map[string]int // region -> generation; keys of a region not in vars denote "<key>@<epoch>"
 }
 
 func (s *State) clone() *State {
-	n := &State{reach: s.reach, vars: make(map[string]Term, len(s.vars))}
+	n := &State{reach: s.reach, vars: make(map[string]Term, len(s.vars)), epoch: make(map[string]int, len(s.epoch))}
 	for k, v := range s.vars {
 		n.vars[k] = v
 	}
+	for k, v := range s.epoch {
+		n.epoch[k] = v
+	}
 	return n
+}
+
+func globMatch(pat, s string) bool {
+	parts := strings.Split(pat, "*")
+	if len(parts) == 1 {
+		return pat == s
+	}
+	if !strings.HasPrefix(s, parts[0]) {
+		return false
+	}
+	s = s[len(parts[0]):]
+	for i := 1; i < len(parts)-1; i++ {
+		j := strings.Index(s, parts[i])
+		if j < 0 {
+			return false
+		}
+		s = s[j+len(parts[i]):]
+	}
+	return strings.HasSuffix(s, parts[len(parts)-1])
+}
+
+// regionOf returns the region owning a state key ("" if none).
+func (u *UnitGen) regionOf(key string) string {
+	if r, ok := u.regionCache[key]; ok {
+		return r
+	}
+	res := ""
+	for _, name := range u.g.specs.RegionOrd {
+		for _, pat := range u.g.specs.Regions[name] {
+			if globMatch(pat, key) {
+				res = name
+			}
+		}
+	}
+	u.regionCache[key] = res
+	return res
+}
+
+// havocRegion forgets everything about the keys owned by region r.
+func (u *UnitGen) havocRegion(st *State, r string) {
+	u.epochCtr++
+	st.epoch[r] = u.epochCtr
+	for k := range st.vars {
+		if u.regionOf(k) == r {
+			delete(st.vars, k)
+		}
+	}
+	for _, tr := range u.trackers {
+		tr.written["region:"+r] = true
+	}
+	st.vars["RC:"+r] = TTrue
+	u.varSort["RC:"+r] = SBool
 }
 
 // UnitGen generates the verification conditions of one unit.
@@ -38,7 +94,7 @@ type UnitGen struct {
 	fresh    map[string]int
 	obCtr    map[string]int
 	nframes  int
-	trackers []map[string]bool
+	trackers []*tracker
 	dry      int
 	assumed  map[string]string // assumption name -> description
 	inputs   []NamedTerm
@@ -55,12 +111,20 @@ type UnitGen struct {
 	callCtr    map[string]int
 	dropped    map[string]bool
 	fresh0     map[string]bool
+	regionCache map[string]string
+	epochCtr    int
+	loopFrames  int
+	newNames    map[string]bool
 }
 
 func (u *UnitGen) freshName(base string) string {
 	base = mangle(base)
 	u.fresh[base]++
-	return fmt.Sprintf("%s!%d", base, u.fresh[base])
+	n := fmt.Sprintf("%s!%d", base, u.fresh[base])
+	if u.newNames != nil {
+		u.newNames[n] = true
+	}
+	return n
 }
 
 func (u *UnitGen) emit(e Event) {
@@ -125,10 +189,32 @@ func (u *UnitGen) get(st *State, key string, so Sort) Term {
 	if v, ok := st.vars[key]; ok {
 		return v
 	}
-	if v, ok := u.init[key]; ok {
+	ep := 0
+	if r := u.regionOf(key); r != "" {
+		ep = st.epoch[r]
+	}
+	ikey := key
+	if ep != 0 {
+		ikey = fmt.Sprintf("%s@e%d", key, ep)
+	}
+	if v, ok := u.init[ikey]; ok {
 		return v
 	}
+	if so == "" {
+		so = u.varSort[key]
+	}
 	u.varSort[key] = so
+	if strings.HasPrefix(key, "RC:") {
+		u.init[ikey] = TFalse
+		return TFalse
+	}
+	if ep != 0 {
+		n := mangle(key) + fmt.Sprintf("@e%d", ep)
+		u.initEv = append(u.initEv, Event{Kind: EvConst, Name: n, Sort: so})
+		t := Term{n, so}
+		u.init[ikey] = t
+		return t
+	}
 	if strings.HasPrefix(key, "LK:") {
 		t := ConstArray(so, IntN(0))
 		u.init[key] = t
@@ -146,12 +232,50 @@ func (u *UnitGen) get(st *State, key string, so Sort) Term {
 	return t
 }
 
+// tracker records what a loop body writes (dry run).
+type writeRef struct {
+	ref   Term
+	fresh bool // the object was allocated inside the loop
+}
+
+type tracker struct {
+	written map[string]bool
+	allocs  map[string]bool       // refs allocated inside the loop
+	nset    map[string]int        // writes per key
+	nmark   map[string]int        // writes per key whose target object is known
+	refs    map[string][]writeRef // target objects per key
+	silent  bool
+}
+
+func newTracker() *tracker {
+	return &tracker{written: map[string]bool{}, allocs: map[string]bool{}, nset: map[string]int{}, nmark: map[string]int{}, refs: map[string][]writeRef{}}
+}
+
+// markStore announces that the next set(key) writes index ref of array key.
+func (u *UnitGen) markStore(key string, ref Term) {
+	for _, tr := range u.trackers {
+		tr.nmark[key]++
+		tr.refs[key] = append(tr.refs[key], writeRef{ref, tr.allocs[ref.S]})
+	}
+}
+
+// markStoreFresh announces that the next set(key) only affects objects allocated inside every
+// enclosing tracked loop (used when an inner loop's cut havocs an array it only writes at
+// objects allocated in that inner loop).
+func (u *UnitGen) markStoreFresh(key string) {
+	for _, tr := range u.trackers {
+		tr.nmark[key]++
+		tr.refs[key] = append(tr.refs[key], writeRef{Term{}, true})
+	}
+}
+
 func (u *UnitGen) set(st *State, key string, v Term) {
 	if _, ok := u.varSort[key]; !ok {
 		u.varSort[key] = v.Sort
 	}
 	for _, tr := range u.trackers {
-		tr[key] = true
+		tr.written[key] = true
+		tr.nset[key]++
 	}
 	st.vars[key] = v
 }
@@ -176,9 +300,37 @@ func (u *UnitGen) merge(label string, ins []edgeState) *State {
 	for i, e := range ins {
 		guards[i] = u.define("edge_"+label, And(e.st.reach, e.cond))
 	}
-	out := &State{vars: map[string]Term{}}
+	out := &State{vars: map[string]Term{}, epoch: map[string]int{}}
 	out.reach = u.define("reach_"+label, Or(guards...))
+	for _, e := range ins {
+		for r := range e.st.epoch {
+			out.epoch[r] = -1
+		}
+	}
 	keys := map[string]bool{}
+	regionChanged := map[string]bool{}
+	for r := range out.epoch {
+		same := true
+		for _, e := range ins {
+			if e.st.epoch[r] != ins[0].st.epoch[r] {
+				same = false
+			}
+		}
+		if same {
+			out.epoch[r] = ins[0].st.epoch[r]
+		} else {
+			u.epochCtr++
+			out.epoch[r] = u.epochCtr
+			regionChanged[r] = true
+		}
+	}
+	// keys of a region whose generation differs between the incoming paths: every key known so
+	// far must be merged explicitly (an absent key means "<key>@<epoch of that path>")
+	for k := range u.varSort {
+		if r := u.regionOf(k); r != "" && regionChanged[r] {
+			keys[k] = true
+		}
+	}
 	for _, e := range ins {
 		for k := range e.st.vars {
 			keys[k] = true
@@ -195,12 +347,8 @@ func (u *UnitGen) merge(label string, ins []edgeState) *State {
 		for i, e := range ins {
 			v, ok := e.st.vars[k]
 			if !ok {
-				v, ok = u.init[k]
-				if !ok {
-					// variable never initialised on this path (e.g. a local of a
-					// branch): use an arbitrary initial value
-					v = u.get(e.st, k, u.varSort[k])
-				}
+				// not set on this path: its (epoch-dependent) initial value
+				v = u.get(e.st, k, u.varSort[k])
 			}
 			vals[i] = v
 			if i > 0 && vals[i].S != vals[0].S {
@@ -259,6 +407,9 @@ func (u *UnitGen) alloc(st *State, base string) Term {
 	top := u.top(st)
 	r := u.define(base, top)
 	u.setDef(st, "top", App(SInt, "+", top, IntN(1)))
+	for _, tr := range u.trackers {
+		tr.allocs[r.S] = true
+	}
 	return r
 }
 
@@ -286,7 +437,7 @@ func (u *UnitGen) typeFacts(st *State, v Term, t types.Type) Term {
 		return And(App(SBool, "<=", IntN(0), App(SInt, "itag", v)),
 			Implies(Eq(App(SInt, "itag", v), IntN(0)), Eq(App(SInt, "ipay", v), IntN(0))))
 	case *types.Slice:
-		return App(SBool, "<=", IntN(0), App(SInt, "len_"+string(v.Sort), v))
+		return And(App(SBool, "<=", IntN(0), App(SInt, "len_"+string(v.Sort), v)), App(SBool, "<=", App(SInt, "len_"+string(v.Sort), v), IntLit("9223372036854775807")))
 	case *types.Struct:
 		si := u.g.reg.structInfoOf(t)
 		var fs []Term
@@ -466,6 +617,7 @@ func (u *UnitGen) store(st *State, a *Addr, v Term) {
 			si := u.g.reg.structInfoOf(a.objT)
 			for i := 0; i < stt.NumFields(); i++ {
 				k, so := u.fieldKey(a.objT, i)
+				u.markStore(k, a.ref)
 				u.setDef(st, k, Store(u.get(st, k, so), a.ref, App(si.fsorts[i], si.fields[i], v)))
 			}
 			return
@@ -473,6 +625,7 @@ func (u *UnitGen) store(st *State, a *Addr, v Term) {
 		k, so := u.fieldKey(a.objT, a.path[0].field)
 		arr := u.get(st, k, so)
 		nv := u.storePath(Select(arr, a.ref), a.path[1:], v)
+		u.markStore(k, a.ref)
 		u.setDef(st, k, Store(arr, a.ref, nv))
 		return
 	}
@@ -481,5 +634,6 @@ func (u *UnitGen) store(st *State, a *Addr, v Term) {
 	}
 	k, so := u.cellKey(a.objT)
 	arr := u.get(st, k, so)
+	u.markStore(k, a.ref)
 	u.setDef(st, k, Store(arr, a.ref, u.storePath(Select(arr, a.ref), a.path, v)))
 }
